@@ -92,6 +92,10 @@ def quick_deviations():
     # tight perpendicular-following tolerances (every piece of a radial line must honour them)
     out.append(mk("lsn", True, opt=dict(follow_perpendicular_rtol=2e-11, follow_perpendicular_atol=1e-11), tags=["fp"]))
     out.append(mk("ldn", True, opt=dict(follow_perpendicular_rtol=2e-11, follow_perpendicular_atol=1e-11), tags=["fp"]))
+    # the whole equilibrium and wall above Z = 0 (machine coordinates), wall given clockwise from
+    # a corner such that the implied closing segment is the horizontal one far from Z = 0
+    out.append(mk("lsn", True, affine=[1.0, 0.0, 1.0, 1.2], wall="W0", tags=["wall", "affine"]))
+    out.append(mk("usn", False, affine=[1.0, 0.0, 1.0, -1.3], wall="W1", tags=["wall", "affine"]))
     # a grid written after "geometry(), redistributePoints(), geometry()" on one mesh (the GUI's
     # write - regrid - write loop) and one after a plain redistribution
     out.append(mk("lsn", False, geometry_first=True, tags=["history"],
